@@ -40,6 +40,7 @@ type FuncResult struct {
 	ReturnPCs   [][]string
 	File        string
 	Trusted     bool
+	SpecChecks  []specCheck
 }
 
 func (p *Program) verifyFunc(name string, c *FuncContract) *FuncResult {
@@ -157,6 +158,26 @@ func (p *Program) verifyFunc(name string, c *FuncContract) *FuncResult {
 				res = Val{K: VTuple, Tup: rets}
 			}
 			ex.bindResults(post, fn.Signature, fn, res)
+			for _, ip := range c.InPlace {
+				if cell := st2.cellByName(ip, fr.id); cell != nil {
+					cur := ex.load(st2, &Ptr{Kind: PCell, Cell: cell, Typ: cell.typ})
+					if cur.K == VTerm {
+						post.oldBinds = map[string]TVal{}
+						if pv, ok := post.params[ip]; ok {
+							if post.oldBinds == nil {
+								post.oldBinds = map[string]TVal{}
+							}
+							post.oldBinds[ip] = pv
+						}
+						post.binds[ip] = TVal{T: cur.T, Ty: cell.typ}
+					}
+				} else {
+					vc.fatalf("inplace %s: no such parameter", ip)
+				}
+			}
+			if len(c.Updates) > 0 {
+				ex.applyUpdates(st2, c, post)
+			}
 			vc.groupCtr++
 			basePC := len(st2.pc)
 			for _, e := range c.Ensures {
@@ -169,7 +190,9 @@ func (p *Program) verifyFunc(name string, c *FuncContract) *FuncResult {
 					return
 				}
 				n0 := len(vc.obligations)
+				vc.curProps = e.Props
 				ex.obligationFull(fr, st2, "ensures", e.Text, g, false, fmt.Sprint(e.Ordinal), post.ground)
+				vc.curProps = nil
 				if len(vc.obligations) > n0 {
 					o := vc.obligations[len(vc.obligations)-1]
 					o.Group = vc.groupCtr
@@ -192,6 +215,7 @@ func (p *Program) verifyFunc(name string, c *FuncContract) *FuncResult {
 		})
 	}
 	res.Obligations = vc.obligations
+	res.SpecChecks = vc.specChecks
 	res.Fatal = append(res.Fatal, vc.fatal...)
 	if vc.paths > vc.maxPaths {
 		res.Fatal = append(res.Fatal, fmt.Sprintf("more than %d paths in %s", vc.maxPaths, name))
@@ -388,4 +412,23 @@ func pkgSees(user, decl *types.Package) bool {
 		return false
 	}
 	return walk(user)
+}
+
+// verifySpec verifies a function or closure body against a closure specification.
+func (p *Program) verifySpec(sc specCheck) *FuncResult {
+	name := p.funcName(sc.fn)
+	c := *sc.spec
+	c.Kind = "func"
+	c.Alias = sc.spec.Params
+	c.SpecOf = sc.spec.Name
+	c.Name = name
+	if _, ok := p.funcs[name]; !ok {
+		p.funcs[name] = sc.fn
+	}
+	r := p.verifyFunc(name, &c)
+	r.Name = name + " as " + sc.spec.Name
+	for _, o := range r.Obligations {
+		o.Name = strings.Replace(o.Name, name+"#", name+"@"+sc.spec.Name+"#", 1)
+	}
+	return r
 }
